@@ -27,6 +27,12 @@ CLAIMS.update({
  'C17': ('real Util.execute_xform_size/execute_xforms/execute_xform_box and VideoReader.thread_reader size arithmetic: bounds symbolic in [1,4096], Python floats as reals with sound rounding envelopes; flips/rotations/conversions against reference index maps at a symbolic pixel',
          'trusted: IEEE rounding model (envelope 2^-30), OpenCV contract model; image sizes for the size laws from an explicit set of 14 (quick) / 131 (thorough) sizes; interpolation values outside the claim'),
 })
+CLAIMS.update({
+ 'C12': ('real cli/common.py parse_filters on symbolically composed command lines; explicit TCP ports are z3 integers carried through the strings as digit tokens; z3 proves every auto-allocated {a,a+1} disjoint from every other bound {p,p+1}; id resolution, suffixes, pass-through checked on every path',
+         'trusted: digit-token string model; bounds: 1-3 filters with full option variation or fixed 3-4 filter chains, ports in [1024,65000]; no mixed MQ/non-MQ outputs'),
+ 'C16': ('real OTelLineageExporter.export/_is_allowed with a symbolic allow-list (size, exact membership and wildcard-match matrix are z3 booleans); z3 proves each exported key allowed, empty list exports nothing, histogram length law for all lengths 0-4; read_allowlist on env/YAML samples',
+         'trusted: stdlib fnmatch semantics; metric values concrete; bounds: 0-3 patterns, 1-3 data points'),
+})
 NA = {}
 props = [json.loads(l)['id'] for l in open(os.path.join(V, 'properties.jsonl'))]
 checks = []
